@@ -1217,6 +1217,28 @@ func (g *G) genVaryCCCase(p *Profile, id string) *Case {
 	return c
 }
 
+// genBigAllowanceCase: a fresh stored response and requests whose max-stale / min-fresh / max-age arguments are as large as a
+// directive argument gets — around and beyond what a duration holds: a fresh response stays usable under every max-stale
+func (g *G) genBigAllowanceCase(p *Profile, id string) *Case {
+	c := &Case{ID: id, Stream: "M", SWRTimeout: p.SWRTimeouts[g.intn(len(p.SWRTimeouts))]}
+	res := g.intn(2)
+	first := tRep(0, 200, g.pick("max-age=600", "max-age=3600", "max-age=9223372036", "max-age=60"), Hdr{"ETag", []string{`"v1"`}})
+	big := func() string {
+		return g.pick("9223372036", "9223372035", "9223372037", "9999999999", "9223372000", "18446744073709551616", "99999999999999999999", "2147483648", "4294967296")
+	}
+	req := func(gap time.Duration) Req {
+		cc := g.pick("max-stale="+big(), "max-stale="+big(), `max-stale="`+big()+`"`, "max-stale", "max-age="+big(), "max-stale="+big()+", max-age="+big())
+		return Req{Gap: gap, Method: "GET", URL: g.urlFor(res, false), Hdrs: []Hdr{{"Cache-Control", []string{cc}}}}
+	}
+	c.Reqs = []Req{{Gap: time.Second, Method: "GET", URL: g.urlFor(res, false)}, req(g.pickD(time.Second, 5*time.Second)), req(time.Second), req(g.pickD(10*time.Second, 100*time.Second))}
+	c.Script = []ScriptEntry{{Plain: first, Cond: first}}
+	for i := 1; i < 6; i++ {
+		r := tRep(i, 200, "max-age=60", Hdr{"ETag", []string{`"v2"`}})
+		c.Script = append(c.Script, ScriptEntry{Plain: r, Cond: r})
+	}
+	return c
+}
+
 func (g *G) genFor(p *Profile, id string, i int) *Case {
 	g.noVaryCC = p.Name == "spell"
 	switch {
@@ -1238,6 +1260,8 @@ func (g *G) genFor(p *Profile, id string, i int) *Case {
 		return g.genNoStoreBackgroundCase(p, id)
 	case p.Name == "oic" && i%12 == 7:
 		return g.genVaryCCCase(p, id)
+	case p.Name == "hit" && i%15 == 4:
+		return g.genBigAllowanceCase(p, id)
 	}
 	return g.genCase(p, id)
 }
